@@ -273,6 +273,13 @@ func Run(s *Stream, g *G, tier string, seed int64, modelBin string, corpus []M, 
 						msgs = append(msgs, f.Msg)
 					}
 				}
+				if len(msgs) == 0 {
+					// the failure does not reproduce on the minimised operation (it depends on hidden
+					// state or timing): report the operation as it was generated
+					rep.Cases = append(rep.Cases, Case{Property: p, Kind: "oracle", Stream: s.Name, Op: op, Impl: impl[i],
+						Messages: append([]string{"(not reproducible after minimisation: depends on earlier calls)"}, byProp[p]...)})
+					continue
+				}
 				rep.Cases = append(rep.Cases, Case{Property: p, Kind: "oracle", Stream: s.Name, Op: small, Impl: r, Messages: msgs})
 			}
 		}
